@@ -105,7 +105,8 @@ class TermEval:
                     for k, x in enumerate(t.elts):
                         env[x.id] = ("child", k) if v == ("children",) else ("index", v, ("const", k))
                     continue
-                raise Inconclusive("operator term: assignment `%s`" % u(s)[:60])
+                self.side_effects = getattr(self, "side_effects", []) + [" ".join(u(s).split())[:70]]
+                continue
             if isinstance(s, ast.If):
                 rebind = self.guarded_rebinding(s, env)
                 if rebind is not None:
@@ -117,6 +118,10 @@ class TermEval:
                 out += self.paths(s.orelse + stmts[i + 1:], env, conds + ((src, False),))
                 return out
             if isinstance(s, ast.Expr) and isinstance(s.value, ast.Constant):
+                continue
+            if isinstance(s, (ast.Assign, ast.AugAssign, ast.Expr)):
+                # a statement with an effect outside the value computation (e.g. filling a cache): the value terms are still read off the returns
+                self.side_effects = getattr(self, "side_effects", []) + [" ".join(u(s).split())[:70]]
                 continue
             raise Inconclusive("operator term: statement `%s`" % u(s)[:60])
         return [(conds, "FALL", env)]
